@@ -49,7 +49,25 @@ type genInst struct {
 	rel func(id string) error
 }
 
-func newInst(api string, k idKind, st storage.Storage, ctx context.Context) genInst {
+// lapse: what "a long time" is for the rigs in which time passes: 4 x the hybrid default cache TTL
+const (
+	shortCacheTTL = 100 * time.Millisecond
+	lapseSleep    = 4 * shortCacheTTL
+)
+
+func newInst(api string, k idKind, st storage.Storage, ctx context.Context, ttl0 bool) genInst {
+	if ttl0 {
+		// marker lifetime "until Release" (ttl 0) instead of the default 30 days
+		if k.typ == "int64" {
+			g := idgen.NewStorageIDGeneratorWithTTL[int64](st, k.prefix, k.keyPrefix, 0, ctx)
+			return genInst{
+				gen: func() (string, error) { v, err := g.Generate(); return strconv.FormatInt(v, 10), err },
+				rel: func(id string) error { v, _ := strconv.ParseInt(id, 10, 64); return g.Release(v) },
+			}
+		}
+		g := idgen.NewStorageIDGeneratorWithTTL[string](st, k.prefix, k.keyPrefix, 0, ctx)
+		return genInst{gen: g.Generate, rel: g.Release}
+	}
 	if api == "mgr" {
 		m := idgen.NewIDManager(st, ctx)
 		switch k.name {
@@ -145,6 +163,19 @@ func (f *faultArm) fn(c *doubles.Call) error {
 	return nil
 }
 
+// delivered reports (without waiting) whether the armed fault has been delivered.
+func (f *faultArm) delivered() bool {
+	f.mu.Lock()
+	defer f.mu.Unlock()
+	return !f.armed
+}
+
+func (f *faultArm) disarm() {
+	f.mu.Lock()
+	f.armed = false
+	f.mu.Unlock()
+}
+
 // spent reports whether the armed fault has been delivered; it waits a little, because a step that
 // is expected to end blocked (short watchdog) may return before the released operation has run.
 func (f *faultArm) spent() bool {
@@ -198,6 +229,7 @@ func newGenRig(b *behaviour, procs []string, free bool) *genRig {
 		name = "shared"
 	}
 	r.mark = doubles.NewStore(name, r.s)
+	r.mark.RealTTL = b.TTL0 // a marker written with a finite lifetime really goes when it is over
 	r.fault = &faultArm{}
 	r.mark.Fault = r.fault.fn
 	for _, p := range procs {
@@ -213,24 +245,36 @@ func newGenRig(b *behaviour, procs []string, free bool) *genRig {
 			st = r.mark.AsNoCAS()
 		case "hybrid":
 			// one node = one hybrid.Storage with its own local cache; all nodes share one shared cache
-			st = hybrid.NewWithSharedCache(ctx, doubles.NewStore("cache-"+in, r.s), r.mark, nil, hybrid.DefaultConfig())
+			cfg := hybrid.DefaultConfig()
+			local := doubles.NewStore("cache-"+in, r.s)
+			if b.TTL0 {
+				cfg.DefaultCacheTTL = shortCacheTTL // "a long time" (Lapse) is then 400 ms
+				local.RealTTL = true
+			}
+			st = hybrid.NewWithSharedCache(ctx, local, r.mark, nil, cfg)
 		default:
 			panic("store " + b.Store)
 		}
-		r.insts[in] = newInst(b.API, r.kind, st, ctx)
+		r.insts[in] = newInst(b.API, r.kind, st, ctx, b.TTL0)
 	}
 	return r
 }
 
 func (r *genRig) detail(b *behaviour) string {
-	return fmt.Sprintf("gen:%s:%s:%s:%s", b.Store, b.Lay, b.API, b.IDKind)
+	d := fmt.Sprintf("gen:%s:%s:%s:%s", b.Store, b.Lay, b.API, b.IDKind)
+	if b.TTL0 {
+		d += ":ttl0"
+	}
+	return d
 }
 
 func (r *genRig) markers() []any {
 	snap := r.mark.Snapshot(r.kind.keyPrefix + ":")
 	out := []string{}
 	for k := range snap {
-		out = append(out, strings.TrimPrefix(k, r.kind.keyPrefix+":"))
+		if _, live := r.mark.Peek(k); live { // Snapshot does not apply lifetimes, Peek does
+			out = append(out, strings.TrimPrefix(k, r.kind.keyPrefix+":"))
+		}
 	}
 	sort.Strings(out)
 	res := make([]any, len(out))
@@ -322,6 +366,11 @@ func driveGen(env *fw.Env, b *behaviour) *fw.Trace {
 			return finish(fmt.Sprintf("diverged at step %d (%s %s): ", i, st.P, st.A) + fmt.Sprintf(f, x...))
 		}
 		switch st.A {
+		case "Lapse":
+			// a long time passes: longer than any default cache TTL, far shorter than the markers' 30 days
+			if b.TTL0 {
+				time.Sleep(lapseSleep)
+			}
 		case "CallGen", "CallRel":
 			ncalls[st.P]++
 			a := &gcall{name: fmt.Sprintf("%s.%d", st.P, ncalls[st.P]), p: st.P, op: "Gen", src: &source{typ: r.kind.typ}}
@@ -519,5 +568,82 @@ func driveGenFree(env *fw.Env, b *behaviour) *fw.Trace {
 		return &fw.Trace{Status: fw.DriverError, Note: "free-running generator processes did not finish"}
 	}
 	t.Events = append(t.Events, fw.Event{"ev": "Snap", "markers": r.markers(), "quiet": true})
+	return t
+}
+
+// ---- UUID-backed ids (connection, tunnel, mapping-instance) -----------------------------------
+
+// driveUUID runs one TLC behaviour of IdGen.tla (Mode "uuid"): sequential Generate calls of the
+// UUID-backed generators of two IDManagers (or two bare UUIDGenerators), some of them while the
+// entropy source of github.com/google/uuid fails. There is no store and no gate: one call = one step.
+func driveUUID(env *fw.Env, b *behaviour) *fw.Trace {
+	ctx, cancel := context.WithCancel(context.Background())
+	defer cancel()
+	st := doubles.NewStore("st", nil)
+	gens := map[string]func() (string, error){}
+	for _, stp := range b.St { // one IDManager / generator per caller = per node
+		if _, ok := gens[stp.P]; ok || stp.A != "UGen" {
+			continue
+		}
+		if b.API == "mgr" {
+			m := idgen.NewIDManager(st, ctx)
+			gens[stp.P] = map[string]func() (string, error){"conn": m.GenerateConnectionID, "tun": m.GenerateTunnelID, "pmi": m.GeneratePortMappingInstanceID}[b.IDKind]
+		} else {
+			g := idgen.NewUUIDGenerator(map[string]string{"conn": idgen.PrefixConnectionID, "tun": idgen.PrefixTunnelID, "pmi": idgen.PrefixPortMappingInstanceID}[b.IDKind])
+			gens[stp.P] = g.Generate
+		}
+	}
+	t := &fw.Trace{Status: fw.Realised}
+	t.Events = append(t.Events, fw.Event{"ev": "Cfg", "d": fmt.Sprintf("uuid:%s:%s", b.API, b.IDKind), "scope": true, "taken": []any{}})
+	failing := false
+	for i, stp := range b.St {
+		switch stp.A {
+		case "EntropyFail":
+			failing = true
+		case "EntropyHeal":
+			failing = false
+		case "UGen":
+			t.Events = append(t.Events, fw.Event{"ev": "Call", "p": stp.P, "op": "Gen", "id": ""})
+			done := make(chan genRes, 1)
+			gen, f := gens[stp.P], failing
+			go func() {
+				var res genRes
+				defer func() {
+					if x := recover(); x != nil {
+						// an abort that carries the entropy error hands out nothing: a clean failure
+						res = genRes{ok: false, err: "panic"}
+						if e, ok := x.(error); ok && errors.Is(e, errEntropy) {
+							res.err = "entropy"
+						}
+					}
+					done <- res
+				}()
+				if f {
+					defer udisp.fail()()
+				}
+				id, err := gen()
+				switch {
+				case err == nil:
+					res = genRes{ok: true, id: id}
+				case errors.Is(err, errEntropy):
+					res = genRes{ok: false, err: "entropy"}
+				default:
+					res = genRes{ok: false, err: "other"}
+				}
+			}()
+			var res genRes
+			select {
+			case res = <-done:
+			case <-time.After(30 * time.Second):
+				return &fw.Trace{Status: fw.DriverError, Note: "UUID generation did not return"}
+			}
+			t.Events = append(t.Events, fw.Event{"ev": "Ret", "p": stp.P, "op": "Gen", "ok": res.ok, "id": res.id, "err": res.err})
+			if res.ok != (stp.R == "ok") {
+				t.Note = fmt.Sprintf("diverged at step %d (%s UGen): model expects %q, real call returned ok=%v id=%q err=%q", i, stp.P, stp.R, res.ok, res.id, res.err)
+			}
+		default:
+			return &fw.Trace{Status: fw.DriverError, Note: "unknown action " + stp.A}
+		}
+	}
 	return t
 }
